@@ -70,7 +70,9 @@ func (m c06) Run(ctx *core.Ctx) {
 				ref = "?" + strings.ReplaceAll(gen.Mutate(r, gen.QueryOrFragment(r)), "#", "")
 			}
 		}
-		cs := &core.Case{Check: law, Base: core.S(base), HasBase: true, Input: core.S(ref)}
+		// N: how the base VALUE is used before resolving through (*Url).Parse:
+		// 0 fresh, 1 SearchParams() read, 2 getters + Clone read, 3 an earlier resolution
+		cs := &core.Case{Check: law, Base: core.S(base), HasBase: true, Input: core.S(ref), N: r.IntN(4)}
 		ctx.Begin(cs)
 		m.Exec(ctx, cs)
 	}
@@ -97,6 +99,32 @@ func cleaned(ref string) string {
 	return sb.String()
 }
 
+// resolveValue resolves ref through (*Url).Parse on a base VALUE that was used (read-only)
+// before, in the way the case's N says.
+func resolveValue(ctx *core.Ctx, base, ref string, n int) (u *url.Url, err error, pan *core.Panic) {
+	pan = ctx.Call(len(base)+len(ref)+256, func() {
+		var b *url.Url
+		b, err = url.Parse(base)
+		if err != nil || b == nil {
+			return
+		}
+		switch n {
+		case 1:
+			sp := b.SearchParams()
+			_ = sp.String()
+			_ = sp.Has("a")
+		case 2:
+			_ = obs.Take(b)
+			_ = b.Clone().Href(false)
+		case 3:
+			_, _ = b.Parse("x?y#z")
+			_, _ = b.Parse("#f")
+		}
+		u, err = b.Parse(ref)
+	})
+	return
+}
+
 func (c06) Exec(ctx *core.Ctx, cs *core.Case) {
 	base, ref := string(cs.Base), string(cs.Input)
 	if base == "" {
@@ -120,7 +148,7 @@ func (c06) Exec(ctx *core.Ctx, cs *core.Case) {
 		var u2 *url.Url
 		var e2 error
 		p2 := ctx.Call(len(ref)+len(base), func() { u2, e2 = url.NewParser().ParseRef(base, ref) })
-		u3, e3, p3 := parseImpl(ctx, nil, ref, base, true, true)
+		u3, e3, p3 := resolveValue(ctx, base, ref, cs.N)
 		if p1 != nil || p2 != nil || p3 != nil {
 			ctx.Violate("L1: a resolution entry point panics", "returns", core.Panic{}.Value+p1.String()+p2.String()+p3.String(), "")
 			return
@@ -166,7 +194,7 @@ func (c06) Exec(ctx *core.Ctx, cs *core.Case) {
 			return
 		}
 		ctx.Nontrivial()
-		r, err, p := parseImpl(ctx, nil, "", base, true, true)
+		r, err, p := resolveValue(ctx, base, "", cs.N)
 		if p != nil {
 			ctx.Violate("L3: resolving the empty reference panics", "", p.String(), "")
 			return
@@ -193,7 +221,7 @@ func (c06) Exec(ctx *core.Ctx, cs *core.Case) {
 			return
 		}
 		ctx.Nontrivial()
-		r, err, p := parseImpl(ctx, nil, ref, base, true, true)
+		r, err, p := resolveValue(ctx, base, ref, cs.N)
 		if p != nil {
 			ctx.Violate("L4: resolving a fragment-only reference panics", "", p.String(), "")
 			return
@@ -231,7 +259,7 @@ func (c06) Exec(ctx *core.Ctx, cs *core.Case) {
 			return
 		}
 		ctx.Nontrivial()
-		r, err, p := parseImpl(ctx, nil, ref, base, true, true)
+		r, err, p := resolveValue(ctx, base, ref, cs.N)
 		if p != nil {
 			ctx.Violate("L5: resolving a query-only reference panics", "", p.String(), "")
 			return
